@@ -15,11 +15,13 @@ from bisect import bisect_left, bisect_right
 from collections import Counter
 from fractions import Fraction
 
+import gc
+
 import numpy as np
 
 from ..coqgen import B, C, L, N, NONE, Q, Some
 from ..fin import fm, T, D, err_class, magnitude
-from .c11 import DAY, GAPS, SHAPES, Qf, Z, _val, make_grid
+from .c11 import DAY, GAPS, SHAPES, Qf, Z, _val, end_of_link, ghost_values, make_grid, set_memory
 from .c11 import coq_obs as _c11_coq_obs
 
 ID = "C12"
@@ -33,7 +35,9 @@ RULE = (
     "(incl. pulls exactly on publications, at the step position, 1us steps, pulls spanning several publications), the "
     "initial pull at the first publication time, and out-of-range pulls; AvgOverTime and SumOverTime, linear and "
     "step in {0,1/4,1/2,1,1/8,3/4,1/3,2/3,1/10,3/10}, per_time and absolute, initial_interval in {0,1us,1h,1d}, units "
-    "m/s, mm/d, m, dimensionless, 1/d, scalar and small gridded payloads; non-trivial = at least 3 publications and at "
+    "m/s, mm/d, m, dimensionless, 1/d, scalar and small gridded payloads; a quarter of the cases give the adapter a "
+    "memory limit (0 / 1.5 payloads / huge) with one spill directory per worker process and are preceded by another "
+    "coupling (other payloads) in the same process and directory; non-trivial = at least 3 publications and at "
     "least two successful pulls with p0 < p1 of which one spans a publication and one lies strictly inside a "
     "publication interval or ends off a publication; distinct by canonical case hash"
 )
@@ -138,19 +142,32 @@ def _gen_case(rng, i, malformed):
         prev = r
         pulled_later = True
     return {"adapter": adapter, "step": step, "per_time": per_time, "init": rng.choice(INITS) if adapter == "sum" else 0,
-            "units": rng.choice(UNITS), "shape": shape, "exact": exact, "ops": ops}
+            "units": rng.choice(UNITS), "shape": shape, "exact": exact,
+            "mem": rng.choice([0, "mid", "huge"]) if rng.random() < 0.25 else None, "ops": ops}
 
 
 def _daily(vals):
     return [["push", d * DAY, [float(v)]] for d, v in enumerate(vals)]
 
 
-def _case(adapter, step, per_time, ops, units="mm/d", init=0, shape=None, exact=False):
+def _case(adapter, step, per_time, ops, units="mm/d", init=0, shape=None, exact=False, mem=None):
     return {"adapter": adapter, "step": step, "per_time": per_time, "init": init, "units": units,
-            "shape": shape or [], "exact": exact, "ops": ops}
+            "shape": shape or [], "exact": exact, "mem": mem, "ops": ops}
+
+
+def _six_hourly(days):
+    return [["pull", k * DAY // 4] for k in range(0, 4 * days + 1)]
 
 
 CORPUS = [
+    # spilled buffer, consumer finer than the source: several pulls between publications, the first of them trims
+    # the buffer (seeded C12_d)
+    _case("avg", None, False, _daily([1, 2, 4, 8]) + _six_hourly(3), mem=0),
+    _case("sum", [1, 2], True, [["push", d * DAY, [float(v), float(-v)]] for d, v in enumerate([1, 2, 4, 8])] + _six_hourly(3),
+          mem="mid", shape=[2], units="m/s"),
+    _case("sum", None, False, [["push", 0, [1.0]], ["pull", 0], ["push", 8, [3.0]], ["pull", 2], ["pull", 4], ["push", 16, [-2.0]],
+                               ["pull", 9], ["pull", 10], ["pull", 12], ["push", 32, [0.5]], ["pull", 17], ["pull", 20], ["pull", 32]],
+          units="m", exact=True, mem=0),
     # tests/adapters/test_time_integration.py style: daily series, pulls every 12h / 36h
     _case("avg", None, False, _daily([1, 2]) + [["pull", 0], ["pull", DAY // 2], ["pull", DAY]] + [["push", 2 * DAY, [4.0]]]
           + [["pull", DAY + DAY // 2], ["pull", 2 * DAY]]),
@@ -186,7 +203,7 @@ def make_adapter(case):
     return fm.adapters.SumOverTime(step=step, per_time=case["per_time"], initial_interval=D(case["init"]))
 
 
-def run_impl(case):
+def _run_link(case, ghost):
     t0 = T(0)
     shape = case["shape"]
     grid = make_grid(shape)
@@ -194,6 +211,7 @@ def run_impl(case):
     out = fm.Output(name="Out")
     inp = fm.Input(name="In")
     ada = make_adapter(case)
+    set_memory(ada, case, n)
     out >> ada >> inp
     inp.ping()
     out.push_info(fm.Info(time=t0, grid=grid, units=case["units"]))
@@ -211,22 +229,34 @@ def run_impl(case):
     }
     pulls = []
     data_units_ok = True
-    for op in case["ops"]:
-        if op[0] == "push":
-            data = np.array(op[2], dtype=float).reshape(shape) if shape else float(op[2][0])
-            out.push_data(data, T(op[1]))
-        else:
-            try:
-                d = inp.pull_data(T(op[1]))
-                if d.units != ureg.Unit(info_units):
-                    data_units_ok = False
-                dn = d.to(u_norm) if scaled else d
-                vals = [float(x) for x in np.asarray(magnitude(dn), dtype=float).reshape(-1)]
-                pulls.append(["ok", vals])
-            except Exception as e:  # noqa
-                pulls.append([err_class(e)])
+    try:
+        for op in case["ops"]:
+            if op[0] == "push":
+                vs = ghost_values(op[2]) if ghost else op[2]
+                data = np.array(vs, dtype=float).reshape(shape) if shape else float(vs[0])
+                out.push_data(data, T(op[1]))
+            else:
+                try:
+                    d = inp.pull_data(T(op[1]))
+                    if d.units != ureg.Unit(info_units):
+                        data_units_ok = False
+                    dn = d.to(u_norm) if scaled else d
+                    vals = [float(x) for x in np.asarray(magnitude(dn), dtype=float).reshape(-1)]
+                    pulls.append(["ok", vals])
+                except Exception as e:  # noqa
+                    pulls.append([err_class(e)])
+    finally:
+        end_of_link(ada)
     unit_obs["data_units_ok"] = data_units_ok
     return {"n": n, "pulls": pulls, "unit": unit_obs}
+
+
+def run_impl(case):
+    gc.collect()
+    if case.get("mem") is not None:
+        _run_link(case, ghost=True)     # an earlier coupling in the same process / spill directory
+        gc.collect()
+    return _run_link(case, ghost=False)
 
 
 def coq_case(case, obs):
@@ -391,6 +421,7 @@ def distribution(cases, obss):
     res = Counter(r[0] for o in obss if "pulls" in o for r in o["pulls"])
     return {"adapters": dict(ad), "step_positions": dict(steps), "payload_shapes": dict(shapes), "source_units": dict(units),
             "delivered_units": dict(out_units), "pull_results": dict(res),
+            "memory_limit": dict(Counter(str(c.get("mem")) for c in cases)),
             "exact_dyadic_cases": sum(1 for c in cases if c["exact"])}
 
 
